@@ -341,6 +341,11 @@ def iter_values(E, it):
         return list(it)
     if isinstance(it, AbstractIter):
         return None
+    if isinstance(it, Sym) and it.k in ("bytes", "str"):
+        n = z3.simplify(z3.Length(it.t))
+        if z3.is_int_value(n):
+            return [iter_at(E, it, z3.IntVal(j)) for j in range(n.as_long())]
+        return None
     raise Unsupported("iteration over %r (line %d)" % (it, E.cur_line))
 
 
